@@ -17,32 +17,50 @@ NAMES = ["alpha", "beta", "gamma"]
 CONVS = ["a2b", "a2c", "b2c"]
 CONV_PROBE = {"a2b": "take_cb(make_ca(5))", "a2c": "take_cc(make_ca(5))", "b2c": "take_cc(make_cb(5))"}
 
-step = st.one_of(
-    st.fixed_dictionaries({"op": st.just("create"), "slot": st.integers(0, 3), "thread": st.integers(0, 3)}),
-    st.fixed_dictionaries({"op": st.just("create"), "slot": st.integers(0, 3), "thread": st.integers(0, 3)}),
-    st.fixed_dictionaries({"op": st.just("destroy"), "slot": st.integers(0, 3), "thread": st.integers(0, 3)}),
-    st.fixed_dictionaries({"op": st.just("var"), "slot": st.integers(0, 3), "thread": st.integers(0, 3), "name": st.sampled_from(NAMES), "v": st.integers(1, 99)}),
-    st.fixed_dictionaries({"op": st.just("var"), "slot": st.integers(0, 3), "thread": st.integers(0, 3), "name": st.sampled_from(NAMES), "v": st.integers(1, 99)}),
-    st.fixed_dictionaries({"op": st.just("global"), "slot": st.integers(0, 3), "thread": st.integers(0, 3), "name": st.sampled_from(NAMES), "v": st.integers(1, 99)}),
-    st.fixed_dictionaries({"op": st.just("def"), "slot": st.integers(0, 3), "thread": st.integers(0, 3), "name": st.sampled_from(NAMES), "v": st.integers(1, 99)}),
-    st.fixed_dictionaries({"op": st.just("probe"), "slot": st.integers(0, 3), "thread": st.integers(0, 3), "name": st.sampled_from(NAMES)}),
-    st.fixed_dictionaries({"op": st.just("probe"), "slot": st.integers(0, 3), "thread": st.integers(0, 3), "name": st.sampled_from(NAMES)}),
-    st.fixed_dictionaries({"op": st.just("probe"), "slot": st.integers(0, 3), "thread": st.integers(0, 3), "name": st.sampled_from(NAMES)}),
-    st.fixed_dictionaries({"op": st.just("call"), "slot": st.integers(0, 3), "thread": st.integers(0, 3), "name": st.sampled_from(NAMES)}),
-    st.fixed_dictionaries({"op": st.just("class"), "slot": st.integers(0, 3), "thread": st.integers(0, 3), "name": st.sampled_from(["Ka", "Kb"]), "v": st.integers(1, 99)}),
-    st.fixed_dictionaries({"op": st.just("newobj"), "slot": st.integers(0, 3), "thread": st.integers(0, 3), "name": st.sampled_from(["Ka", "Kb"])}),
-    st.fixed_dictionaries({"op": st.just("conv"), "slot": st.integers(0, 3), "thread": st.integers(0, 3), "kind": st.sampled_from(CONVS), "v": st.integers(1, 99)}),
-    st.fixed_dictionaries({"op": st.just("conv"), "slot": st.integers(0, 3), "thread": st.integers(0, 3), "kind": st.sampled_from(CONVS), "v": st.integers(1, 99)}),
-    st.fixed_dictionaries({"op": st.just("convprobe"), "slot": st.integers(0, 3), "thread": st.integers(0, 3), "kind": st.sampled_from(CONVS)}),
-    st.fixed_dictionaries({"op": st.just("convprobe"), "slot": st.integers(0, 3), "thread": st.integers(0, 3), "kind": st.sampled_from(CONVS)}),
-    st.fixed_dictionaries({"op": st.just("use"), "slot": st.integers(0, 3), "thread": st.integers(0, 3), "file": st.sampled_from(["u1", "u2"])}),
-    st.fixed_dictionaries({"op": st.just("use"), "slot": st.integers(0, 3), "thread": st.integers(0, 3), "file": st.sampled_from(["u1", "u2"])}),
-)
+_ST = {"slot": st.integers(0, 3), "thread": st.integers(0, 3)}
+
+
+def _op(opname, **kw):
+    return st.fixed_dictionaries(dict({"op": st.just(opname)}, **_ST, **kw))
+
+
+OPS = {
+    "create": _op("create"), "destroy": _op("destroy"),
+    "var": _op("var", name=st.sampled_from(NAMES), v=st.integers(1, 99)), "global": _op("global", name=st.sampled_from(NAMES), v=st.integers(1, 99)),
+    "def": _op("def", name=st.sampled_from(NAMES), v=st.integers(1, 99)), "probe": _op("probe", name=st.sampled_from(NAMES)),
+    "call": _op("call", name=st.sampled_from(NAMES)), "class": _op("class", name=st.sampled_from(["Ka", "Kb"]), v=st.integers(1, 99)),
+    "newobj": _op("newobj", name=st.sampled_from(["Ka", "Kb"])), "conv": _op("conv", kind=st.sampled_from(CONVS), v=st.integers(1, 99)),
+    "convprobe": _op("convprobe", kind=st.sampled_from(CONVS), pick=st.integers(0, 7)), "use": _op("use", file=st.sampled_from(["u1", "u2"])),
+}
+step = st.one_of(*[OPS[o] for o in ("create", "create", "destroy", "var", "var", "global", "def", "probe", "probe", "probe", "call", "class", "newobj", "conv", "conv",
+                                    "convprobe", "convprobe", "use", "use")])
+
+
+@st.composite
+def paired(draw):
+    """two engines set up side by side (same kinds of things, independently drawn contents), then probed alternately from one thread"""
+    a, b = draw(st.sampled_from([(0, 1), (1, 0), (0, 2), (2, 3), (1, 3)]))
+    t = draw(st.integers(0, 3))
+    setup = st.one_of(*[OPS[o] for o in ("var", "global", "def", "class", "conv", "conv", "use")])
+    probe = st.one_of(*[OPS[o] for o in ("probe", "call", "newobj", "convprobe", "convprobe", "use")])
+    out = [{"op": "create", "slot": a, "thread": draw(st.integers(0, 3))}, {"op": "create", "slot": b, "thread": draw(st.integers(0, 3))}]
+    n = draw(st.integers(1, 3))
+    both_convert = draw(st.booleans())
+    for slot in (a, b):
+        if both_convert:
+            out.append(dict(draw(OPS["conv"]), slot=slot))
+        for _ in range(n):
+            out.append(dict(draw(setup), slot=slot))
+    for i in range(draw(st.integers(2, 8))):
+        out.append(dict(draw(probe), slot=(a, b)[i % 2], thread=t))
+    return out + draw(st.lists(step, max_size=6))
 
 
 def strategy():
     # slots 0/1 (address reuse) are favoured
-    return st.fixed_dictionaries({"steps": st.lists(step, min_size=3, max_size=30), "fold": st.booleans()})
+    return st.one_of(st.fixed_dictionaries({"steps": st.lists(step, min_size=3, max_size=30), "fold": st.booleans()}),
+                     st.fixed_dictionaries({"steps": st.lists(step, min_size=3, max_size=30), "fold": st.booleans()}),
+                     st.fixed_dictionaries({"steps": paired(), "fold": st.just(False)}))
 
 
 class Inst:
@@ -114,8 +132,12 @@ def check(c, ctx):
                     nontrivial = True
                 continue
             if op == "convprobe":
+                if inst.convs and s_["pick"] % 4:         # mostly a conversion this instance has; sometimes whatever was drawn
+                    s_ = dict(s_, kind=sorted(inst.convs)[s_["pick"] % len(inst.convs)])
                 script = CONV_PROBE[s_["kind"]]
                 want = ("i32:%d" % (5 + inst.convs[s_["kind"]])) if s_["kind"] in inst.convs else "ERR"
+                others = [o for o in live.values() if o is not inst and o.convs]
+                ctx.classify("conversion_probe", ("registered here" if s_["kind"] in inst.convs else "not registered here") + (", other live engines have conversions" if others else ""))
             elif op == "class":
                 script = "class %s { def %s() { } def val() { %d } }; 0" % (name, name, s_["v"] + 2000)
                 if name in inst.classes:
